@@ -20,6 +20,8 @@ type G struct {
 	W *world.World
 	// Bias is a per-property knob table (percentages).
 	Bias map[string]int
+	// W0Accts is the account pool (available before the world exists, for genesis generation)
+	W0Accts []simnet.Account
 	// proofs made while generating the current tx
 	proofs []world.ProofReg
 }
